@@ -28,6 +28,7 @@ var limiterCounters = map[string]map[string]bool{
 }
 
 func c16(c *Ctx) {
+	c16handlerReportsOutward(c)
 	c16nameIndexIgnoresUID(c)
 	r := c.R
 	r.Decides("the per-cycle eviction counters of PodEvictor and EvictionLimiter are only accessed under their lock")
